@@ -62,6 +62,7 @@ def main():
     ap.add_argument("--checks")
     ap.add_argument("--name", default="")
     ap.add_argument("--wt")
+    ap.add_argument("--r3", help="round-3 layout: directory with patch.diff, demo/demo_test.go (package coregex_test, copied to the worktree root as zz_demo_test.go), notes.md")
     ap.add_argument("--demo", help="demo command relative to the worktree (default: go run ./mutdemo or go test ./mutdemo)")
     a = ap.parse_args()
     pid = a.pid
@@ -71,6 +72,8 @@ def main():
     if not os.path.isdir(wt):
         return recheck(pid, out, (a.checks.split(",") if a.checks else [pid]))
     patch = os.path.join(wt, "mutation.patch")
+    if a.r3:
+        shutil.copyfile(os.path.join(a.r3, "patch.diff"), patch)
     if not os.path.exists(patch) or not open(patch).read().strip():
         rc, diff = sh("git diff -- . ':!mutdemo' ':!mutation.patch' ':!MUTATION.md'", cwd=wt)
         open(patch, "w").write(diff)
@@ -81,6 +84,9 @@ def main():
     rc, o = sh("git apply %s" % patch, cwd=wt)
     if rc != 0:
         print("patch does not apply in its own worktree:", o); return 2
+    if a.r3:
+        os.remove(patch)
+        patch = os.path.join(a.r3, "patch.diff")
     # 1. suite
     rc, o = sh("go build ./... && go test -vet=off -count=1 ./... 2>&1 | grep -v 'no test files' | grep -v '^ok' | grep -v mutdemo", cwd=wt)
     suite_ok = (o.strip() == "")
@@ -88,6 +94,8 @@ def main():
     meta["suite_output_non_ok"] = o[-1500:]
     # 2. demo both ways
     demo = a.demo
+    if a.r3 and not demo:
+        demo = "cp %s/demo/demo_test.go zz_demo_test.go && go test -vet=off -run TestSeededDemo -count=1 . ; rc=$?; rm -f zz_demo_test.go; exit $rc" % a.r3
     if not demo:
         demo = "go test -count=1 ./mutdemo/..." if any(f.endswith("_test.go") for f in os.listdir(os.path.join(wt, "mutdemo"))) else "go run ./mutdemo"
     rc1, o1 = sh(demo, cwd=wt, timeout=900)
@@ -140,6 +148,11 @@ def main():
     # 4. store
     os.makedirs(out, exist_ok=True)
     shutil.copyfile(patch, os.path.join(out, "patch.diff"))
+    if a.r3:
+        shutil.rmtree(os.path.join(out, "demo"), ignore_errors=True)
+        shutil.copytree(os.path.join(a.r3, "demo"), os.path.join(out, "demo"))
+        if os.path.exists(os.path.join(a.r3, "notes.md")):
+            shutil.copyfile(os.path.join(a.r3, "notes.md"), os.path.join(out, "MUTATION.md"))
     if os.path.isdir(os.path.join(wt, "mutdemo")):
         shutil.rmtree(os.path.join(out, "demo"), ignore_errors=True)
         shutil.copytree(os.path.join(wt, "mutdemo"), os.path.join(out, "demo"))
